@@ -149,7 +149,11 @@ let compare_view (dir : string) (ev : epc_view) (file : string) : string list =
               | Some (_ :: _ :: rest) -> if String.concat " " rest <> ints members then bad := (name ^ "_committee " ^ key) :: !bad
               | _ -> bad := (name ^ "_committee " ^ key ^ ":missing") :: !bad) per_slot) comms;
       let count = List.fold_left (fun a l -> a + List.length l) 0 comms in
-      if List.length golines <> count then bad := (name ^ "_committee:count") :: !bad)
+      if List.length golines <> count then bad := (name ^ "_committee:count") :: !bad;
+      (* optional line: what GetCommitteeCountPerSlot answers for that epoch = committees per slot of the view *)
+      (match Hashtbl.find_opt tbl (name ^ "_committee_count"), comms with
+       | Some g, per_slot :: _ -> if String.concat " " g <> string_of_int (List.length per_slot) then bad := (name ^ "_committee_count") :: !bad
+       | _ -> ()))
     ["prev"; "cur"; "next"];
   (match Hashtbl.find_opt tbl "proposers" with
    | Some g ->
